@@ -289,42 +289,6 @@ impl Model for BufModel {
     }
 }
 
-/// Unwinding: the source fails (panics) once, on the call after `trip` successful pulls; the caller
-/// catches it and goes on using the same Buffered. Every frame the source handed over before and
-/// after must still come out exactly once and in order (the failed call handed nothing over).
-fn fault_case(i: &Init, acts: &[Act], trip: usize) -> Option<Bad> {
-    let cap = i.cap as usize;
-    let mut data = vec![-7.0f64; cap];
-    for k in 0..i.len as usize {
-        data[(i.start as usize + k) % cap] = 100.0 + k as f64;
-    }
-    let ring = Bounded::from_raw_parts(i.start as usize, i.len as usize, data);
-    let (probe, c) = Probe::new((0..64).map(|n| 1.0 + n as f64).collect());
-    c.trip.set(Some(trip));
-    let mut b = probe.buffered(ring);
-    let mut delivered: Vec<f64> = Vec::new();
-    let mut failures = 0;
-    for &a in acts {
-        let r = match a {
-            Act::Next => catch(|| vec![b.next()]),
-            Act::Frames(k) => catch(|| b.next_frames().take(k as usize).collect::<Vec<f64>>()),
-            _ => Ok(vec![]),
-        };
-        match r {
-            Ok(v) => delivered.extend(v),
-            Err(p) if p.contains("injected source failure") && failures == 0 => failures += 1,
-            Err(p) => return Some(("buffered.panic".into(), format!("{i:?} history {:?}, source failing once after {trip} pulls: panicked: {p}", acts.iter().map(|a| a.name()).collect::<Vec<_>>()))),
-        }
-    }
-    for (pos, &f) in delivered.iter().enumerate() {
-        let exp = stream_src(i, pos, 64);
-        if f != exp {
-            return Some(("buffered.unwind".into(), format!("{i:?} history {:?}, source failing once (caught) after {trip} pulls: delivered frame #{pos} = {f}, expected {exp}: every frame the source handed over comes out once, in order (delivered so far: {:?})", acts.iter().map(|a| a.name()).collect::<Vec<_>>(), &delivered[..=pos])));
-        }
-    }
-    None
-}
-
 fn main() {
     let _final_guard = common::FinalGuard::new();
     let ctx: &'static Ctx = Ctx::leak("C14", "release");
@@ -335,9 +299,6 @@ fn main() {
             ctx.finish_replay(catch(|| drain_case(&i)).unwrap_or_else(|p| Some(("panic".into(), p))).map(|e| e.1));
         }
         let acts: Vec<Act> = v["actions"].as_array().map(|a| a.iter().filter_map(|x| Act::parse(x.as_str()?)).collect()).unwrap_or_default();
-        if v["sys"] == "buffered_fault" {
-            ctx.finish_replay(catch(|| fault_case(&i, &acts, v["trip"].as_u64().unwrap_or(0) as usize)).unwrap_or_else(|p| Some(("panic".into(), p))).map(|e| format!("{}: {}", e.0, e.1)));
-        }
         let src_len = v["src_len"].as_u64().map(|x| x as usize).unwrap_or(i.src as usize);
         ctx.finish_replay(match catch(|| run_history_src(&i, &acts, 0, src_len)) {
             Ok(Ok(_)) => None,
@@ -425,40 +386,6 @@ fn main() {
     ctx.add_evals(big_hist);
     ctx.set("big_capacity_histories", json!(big_hist));
     ctx.rule("big-capacity probes: capacities 32, 33, 48, 64, 65, 96, 128, 255 x every residual fill level 0..=cap x 0..2 leading next() calls x a batch of 0,1,2,3 or cap frames, then next / is_exhausted / a batch of 1: same stream, pull and exhaustion oracle");
-    // unwinding: the source fails once (caught), the same Buffered is used on
-    {
-        let fl = ctx.tier.pick(3usize, 4);
-        let mut fcases: Vec<(Init, usize, Vec<Act>)> = Vec::new();
-        for cap in 1..=4u32 {
-            let letters: Vec<Act> = std::iter::once(Act::Next).chain((0..=cap + 1).map(Act::Frames)).collect();
-            let mut seqs: Vec<Vec<Act>> = vec![vec![]];
-            for _ in 0..fl {
-                seqs = seqs.iter().flat_map(|q| letters.iter().map(move |&l| { let mut v = q.clone(); v.push(l); v })).collect();
-            }
-            for start in 0..cap {
-                for len in 0..=cap {
-                    for trip in 0..=2 * cap + 1 {
-                        for q in &seqs {
-                            fcases.push((Init { cap, start, len, src: 64 }, trip as usize, q.clone()));
-                        }
-                    }
-                }
-            }
-        }
-        ctx.set("source_failure_cases", json!(fcases.len()));
-        fcases.par_iter().for_each(|(i, trip, q)| {
-            let cj = json!({"sys":"buffered_fault","cap":i.cap,"start":i.start,"len":i.len,"src":i.src,"trip":trip,"actions":q.iter().map(|a| a.name()).collect::<Vec<_>>()});
-            let _guard_scope = guard::scoped(&cj.to_string());
-            match catch(|| fault_case(i, q, *trip)) {
-                Ok(None) => {}
-                Ok(Some((k, m))) => ctx.violation(&k, cj, m, Some(&|| fault_case(i, q, *trip).map(|e| e.1))),
-                Err(p) => ctx.violation("buffered.panic", cj, format!("source-failure case panicked outside the caught call: {p}"), None),
-            }
-            guard::leave();
-        });
-        ctx.add_evals(fcases.len() as u64);
-        ctx.rule(&format!("unwinding: capacity 1..=4 x every prefill (start, len) x the source failing (panicking) once on the call after 0..=2cap+1 successful pulls x every sequence of {fl} operations over next() and next_frames().take(0..=cap+1), each call under catch_unwind and the same Buffered used on: the frames delivered by the successful calls are prefill ++ source frames, each once and in order"));
-    }
     // 16-bit boundary probes: capacities around 2^16, structured fill levels and start offsets
     let mut cases16: Vec<(Init, Vec<Act>)> = Vec::new();
     for cap in [512u32, 1024, 4096, 44100, 48000, 65535, 65536, 65537] {
